@@ -164,21 +164,21 @@ type relayRig struct {
 	c  *sim.Ctl
 	st *sim.Stream
 
-	base     string // target base path
-	without  string
-	upRules  [][2]string // header_upstream
-	downRules [][2]string
+	base        string // target base path
+	without     string
+	upRules     [][2]string // header_upstream
+	downRules   [][2]string
 	transparent bool
-	keepalive0 bool
-	faults   bool
+	keepalive0  bool
+	faults      bool
 
-	port    int
-	started bool
-	cleanup bool
-	opDone  bool
-	finish  chan struct{}
-	reqs    []*rreq
-	peers   []*bpeer
+	port       int
+	started    bool
+	cleanup    bool
+	opDone     bool
+	finish     chan struct{}
+	reqs       []*rreq
+	peers      []*bpeer
 	transports []*http.Transport
 }
 
